@@ -16,8 +16,8 @@ import (
 type Result struct {
 	Command    string          `json:"command"`
 	Seed       int64           `json:"seed"`
-	Cases      int             `json:"cases"`       // histories / cases executed
-	Nontrivial int             `json:"nontrivial"`  // distinct non-trivial ones, by Rule
+	Cases      int             `json:"cases"`      // histories / cases executed
+	Nontrivial int             `json:"nontrivial"` // distinct non-trivial ones, by Rule
 	Rule       string          `json:"rule"`
 	Samples    []any           `json:"samples"`
 	Violations []drv.Violation `json:"violations"`
